@@ -136,6 +136,54 @@ def representations(ctx, n):
                      observed=one.tolist(), expected=ref_d[:1].tolist())
 
 
+def returned_arrays_are_private(ctx, n):
+  """the views keep agreeing after the caller has modified, in place, every array the estimator handed out (the Mahalanobis
+  matrix - documented as a copy -, transformed points, distances): M is L^T L again on the next call, and the distances, the
+  metric function and the scores are those of L"""
+  from metric_learn import Covariance, NCA
+  rng = ctx.rng
+  for rep in range(n):
+    d = int(rng.integers(2, 6))
+    k = int(rng.integers(1, d + 1))
+    X = rng.integers(-16, 17, size=(12, d)) / 4.0
+    with warnings.catch_warnings():
+      warnings.simplefilter('ignore')
+      if rep % 2 == 0:
+        est = Covariance().fit(np.vstack([np.eye(d), -np.eye(d), np.ones((1, d))]))
+        est.components_ = rng.integers(-8, 9, size=(k, d)) / 2.0
+      else:
+        est = NCA(max_iter=3, n_components=k).fit(X, np.arange(12) % 3)
+    L = np.array(est.components_, dtype=float)
+    M_true = L.T.dot(L)
+    P = X[rng.integers(0, 12, size=(5, 2))]
+    ctx.count('returned_arrays_private', 1)
+    for step in range(3):
+      M = est.get_mahalanobis_matrix()
+      T = est.transform(X)
+      D = est.pair_distance(P)
+      f = est.get_metric()
+      want = np.sqrt(np.einsum('ij,jk,ik->i', P[:, 0] - P[:, 1], M_true, P[:, 0] - P[:, 1]))
+      bad = None
+      if not np.allclose(M, M_true, rtol=1e-12, atol=1e-12 * (np.abs(M_true).max() + 1e-300)):
+        bad = ('get_mahalanobis_matrix() is not L^T L', M.tolist(), M_true.tolist())
+      elif not np.allclose(D, want, rtol=1e-9, atol=1e-12):
+        bad = ('pair_distance differs from sqrt(diff^T M diff)', D.tolist(), want.tolist())
+      elif not np.allclose([f(a, b) for a, b in P], want, rtol=1e-9, atol=1e-12):
+        bad = ('get_metric() differs from sqrt(diff^T M diff)', [float(f(a, b)) for a, b in P], want.tolist())
+      elif not np.allclose(T, X.dot(L.T), rtol=1e-12, atol=1e-12):
+        bad = ('transform is not X L^T', T.tolist(), X.dot(L.T).tolist())
+      if bad:
+        ctx.fail_input('returned_arrays_private', 'after the caller modified in place the arrays returned by earlier calls (call %d): %s' % (step, bad[0]),
+                       dict(estimator=type(est).__name__, L=L.tolist(), pairs=P.tolist(), history='get_mahalanobis_matrix / transform / pair_distance, results modified in place, same calls again'),
+                       observed=bad[1], expected=bad[2])
+        break
+      # the caller rescales / clears what it received
+      M /= (np.trace(M) + 1.0)
+      M[0, 0] = -7.0
+      T *= 0.0
+      D += 1.0
+
+
 def run(ctx):
   thorough = ctx.tier == 'thorough'
   ctx.rule = ("exact lane: as C01, observables transform / get_mahalanobis_matrix / score_pairs compared bit-exactly "
@@ -166,6 +214,7 @@ def run(ctx):
     if falsify_rec(ctx, rec, 'views_agree'):
       break
   representations(ctx, 60 if thorough else 12)
+  returned_arrays_are_private(ctx, 24 if thorough else 6)
 
 
 def replay(payload):
